@@ -567,7 +567,9 @@ fn gen_idx_assign(rng: &mut Rng, k: &Knobs, m: &Model, fault: bool) -> Option<Op
     // elements if nothing checks the lengths first)
     let n = if fault && n >= 2 && rng.chance(1, 2) { 1 + rng.usize(n - 1) } else { n };
     // the source may also be a vector held in another variable (of the right length, or — as a fault — a shorter one)
-    let holders: Vec<&String> = names_where(m, |b| matches!(&b.v, SV::Mat(e2, r2, c2, d2) if *e2 == ek && (*r2 == 1 || *c2 == 1) && d2.len() == n)).into_iter().filter(|h| **h != name).collect();
+    // the target itself may be the source (`x[[2 3 4 1]] = x`): the i-th source element is the one x held BEFORE the statement
+    let keep_self = rng.chance(1, 2);
+    let holders: Vec<&String> = names_where(m, |b| matches!(&b.v, SV::Mat(e2, r2, c2, d2) if *e2 == ek && (*r2 == 1 || *c2 == 1) && d2.len() == n)).into_iter().filter(|h| **h != name || (!fault && keep_self)).collect();
     if !holders.is_empty() && rng.chance(1, 2) { Expr::Var((*rng.pick(&holders)).clone()) } else { Expr::Lit(gen_vec_rand(rng, &ek, n)) }
   } else if fk == 99 && literal_matrix_kind(&ek) && matches!(sub, Sub::Two(..)) && rng.chance(1, 4) {
     // a matrix (or vector) source for a two-position form: one source element per addressed one
@@ -622,7 +624,8 @@ fn gen_op_assign(rng: &mut Rng, k: &Knobs, m: &Model, fault: bool, indexed: bool
         let n = super::model::resolve(&sub, r, c, &m.store).unwrap().len();
         // fault: fewer source elements than addressed ones; the source may be held in a variable
         let n = if fault && n >= 2 && rng.chance(1, 3) { 1 + rng.usize(n - 1) } else { n };
-        let holders: Vec<&String> = names_where(m, |b| matches!(&b.v, SV::Mat(e2, r2, c2, d2) if *e2 == ek && (*r2 == 1 || *c2 == 1) && d2.len() == n)).into_iter().filter(|h| **h != name).collect();
+        let keep_self = rng.chance(1, 2); // `x[[2 1]] += x`: the source elements are the ones x held before the statement
+        let holders: Vec<&String> = names_where(m, |b| matches!(&b.v, SV::Mat(e2, r2, c2, d2) if *e2 == ek && (*r2 == 1 || *c2 == 1) && d2.len() == n)).into_iter().filter(|h| **h != name || (!fault && keep_self)).collect();
         if !holders.is_empty() && rng.chance(1, 2) { Expr::Var((*rng.pick(&holders)).clone()) } else { Expr::Lit(gen_vec_rand(rng, &ek, n)) }
       }
       else { scalar_source(rng, m, &ek) };
